@@ -98,7 +98,7 @@ def check(case):
 
 def _strategy(tier):
     return st.one_of(soup.structured_text(), soup.structured_text(), soup.structured_text(), soup.structured_text(),
-                     sources.any_text(tier, weights=(1, 2, 1, 1, 1, 2, 1, 1, 1))).map(lambda t: {'text': t})
+                     sources.any_text(tier, weights=(1, 2, 1, 1, 1, 2, 1, 1, 1, 2))).map(lambda t: {'text': t})
 
 
 LEGS = [Leg('text', check=check, strategy=_strategy, examples={'quick': 15000, 'thorough': 300000})]
